@@ -523,3 +523,52 @@ def r_nmax_taint(rep, f):
             rep.violation("R-NMAX-TAINT", key, "the step budget is used outside comparisons (it must not influence the integration itself): %s" % bad[:2], body.get("sp"))
         else:
             rep.ok("R-NMAX-TAINT", key, "max_steps feeds only %d comparison(s)/validation" % n)
+
+
+def r_hinit_order(rep, f):
+    """the automatic first step is h1 = (0.01 / max(|f'|, |y''|))^(1/iord): iord must be the order of the local error of the
+    solver's FIRST step (p for an explicit pair whose solution has order p; k + 1 for a multistep method that starts at order
+    k). An exponent of 1 where 1/2 belongs makes the first step the square of what it should be: 1e-15 .. 1e-23 for stiff or
+    fast problems - below the spacing of doubles at any x0 of size 1, so the step-size guard ends the run before it starts."""
+    import aff
+    fn_h = "methods::hinit"
+    want = {aff.solve_def(m): (m["p"], "the method's order %d" % m["p"]) for m in aff.EXPLICIT if m["ty"] != "RK4"}
+    # BDF: initial order + 1
+    bdf = "methods::bdf::BDF::solve"
+    try:
+        import bdfx
+        r = bdfx.find_roles(f)
+    except Exception:
+        r = None
+    if r is not None:
+        lets = tast.find(r.body["body"], lambda z: z.get("k") == "Let" and z["pat"].get("k") == "PBind" and z["pat"].get("id") == r.order and z.get("init") is not None)
+        if len(lets) == 1 and lets[0]["init"].get("k") == "Lit" and lets[0]["init"].get("lk") == "Int":
+            k0 = int(str(lets[0]["init"]["v"]).split("_")[0].rstrip("usize") or 0) if not str(lets[0]["init"]["v"]).isdigit() else int(lets[0]["init"]["v"])
+            want[bdf] = (k0 + 1, "its starting order %d plus one" % k0)
+    n = 0
+    for fn, b in sorted(f.bodies.items()):
+        if not fn.startswith("methods::") or not fn.endswith("::solve"):
+            continue
+        for c in tast.find(b["body"], lambda z: z.get("k") == "Call" and (z.get("def") or "") == fn_h):
+            params = f.bodies[fn_h].get("params", []) if fn_h in f.bodies else []
+            idx = next((i for i, p_ in enumerate(params) if p_.get("name") == "iord"), 7)
+            if idx >= len(c["args"]):
+                continue
+            a = c["args"][idx]
+            while a.get("k") in ("Cast", "DropTemps", "Paren"):
+                a = a["e"]
+            key = "R-HINIT-ORDER:%s" % fn
+            if a.get("k") != "Lit" or fn not in want:
+                rep.note("%s: order argument `%s` not compared (no reference order for this solver)" % (key, tast.render(a)[:40]))
+                continue
+            n += 1
+            got = int(str(a["v"]).split("_")[0]) if str(a["v"]).split("_")[0].isdigit() else None
+            exp, why = want[fn]
+            if got == exp:
+                rep.ok("R-HINIT-ORDER", key, "hinit is asked for order %d = %s" % (got, why))
+            else:
+                rep.violation("R-HINIT-ORDER", key, "hinit is asked for order %s, but the local error of this solver's first step has order %d (%s): the automatic first step is (0.01/max(|f'|,|y''|))^(1/%s) "
+                              "instead of ^(1/%d) - for a stiff or fast problem far below the spacing of doubles at x0, and the run ends with StepSizeTooSmall before its first step unless x0 = 0"
+                              % (got, exp, why, got, exp), c.get("sp"))
+    if n < 4:
+        rep.inconc("R-HINIT-ORDER", "R-HINIT-ORDER:floor", "only %d hinit call(s) with a literal order compared (expected 4)" % n)
